@@ -10,8 +10,10 @@ CONSTANTS
   H = 100
   MaxNow = 5
   MaxNet = 2
+  MaxRxq = 2
+  MaxGwResend = 1
   DupBudget = 0
-  LossBudget = 1
+  LossBudget = 0
   InjBudget = 1
   AdvReq = FALSE
   GwFaultBudget = 0
